@@ -497,7 +497,7 @@ DROPPED = ["logging output", "elapsed-time message formatting"]
 EXPLANATION = "Whole-function symbolic execution of tools.compiler.main with ghost failure counters in the callee contracts."
 MANIFEST = {
     "category": "proof",
-    "text": "tools.compiler.main is executed symbolically against callee contracts with ghost counters: for every combination of path existence, output-directory validity, verbosity, file and parse-error counts and per-model outcomes, the returned status equals usage errors, else parse errors (or 1 for no files), else the number of failing models; only the argparse exit 2 escapes. translate() is verified never to raise; parse_file returns None exactly for a file that cannot be read, decoded or parsed and lets nothing escape; parse_all / list_modelica_files list every .mo file below the paths once, report exactly the files that failed and merge every parsed file once into the library; flatten_class is flatten's outcome for that class. A bounded replay through the real CLI on temp trees runs beside it.",
+    "text": "tools.compiler.main is executed symbolically against callee contracts with ghost counters: for every combination of path existence, output-directory validity, verbosity, file and parse-error counts and per-model outcomes, the returned status equals usage errors, else parse errors (or 1 for no files), else the number of failing models; only the argparse exit 2 escapes. translate() is verified never to raise; parse_file returns None exactly for a file that cannot be read, decoded or parsed and lets nothing escape; parse_all / list_modelica_files list every .mo file below the paths once, report exactly the files that failed and merge every parsed file once into the library; flatten_class is flatten's outcome for that class. A bounded replay through the real CLI on temp trees runs beside it. Option sets include one NAME given twice; usage errors are counted per -O argument by the statement's rule.",
     "note": "List lengths (paths, models, options, files) are enumerated up to 2 and option strings by syntactic class: the loops are unrolled, so the proof is complete for those lengths only; argparse and the callee contracts are assumed.",
     "technique": "contract-based deductive verification: whole-function symbolic execution of the real source, ghost counters in callee contracts, z3",
 }
